@@ -96,7 +96,7 @@ pub fn run_both(bytes: &[u8], full: bool) -> (J, J, String) {
     let a = catch_unwind(AssertUnwindSafe(|| {
         let sh = Shared::new();
         let fut = AsyncIppParser::new(AsyncIppReader::new(futures_util::io::Cursor::new(data))).parse();
-        match run_scripted(fut, &sh, 1_000_000) {
+        match run_scripted(fut, &sh, 50_000_000) {
             ExecOut::Done(Ok(r)) => {
                 if full {
                     json!({"ok": true, "msg": msg_json(&r)})
